@@ -232,6 +232,24 @@ def run(ctx):
         else:
             why = 'distance_km is not evaluated inside a loop over the selection'
     ctx.ob('TABLE', 'validate:every-pair-measured', okpair, vb.where(wit_ln), why, entry=vb.id)
+    # the measured distance is a number: in the distance routine (and what it calls) no inverse trigonometric function is
+    # applied to an unclamped computed value. acos / asin of a product of sines and cosines leaves [-1, 1] by one ulp for
+    # coincident points at some latitudes and returns NaN, and every `distance < min` test is false for NaN — co-located nodes
+    # pass the 50 km rule. (Deliberately narrow: this is the one partial function whose NaN arises for CLOSE points.)
+    dsites = []
+    for did in sorted(prog.reach([c.callee for c in vb.calls(r'::distance_km$')], depth=2)):
+        db_ = prog.bodies[did]
+        if 'placement' not in db_.file:
+            continue
+        for cs in db_.calls(r'f64.*::(acos|asin)$|f32.*::(acos|asin)$'):
+            arg = db_.expr(cs.args[0]).strip()
+            clamped = arg.k == 'call' and re.search(r'::clamp$|::min$|::max$', arg.a) is not None
+            dsites.append((db_, cs, clamped))
+    badd = [x for x in dsites if not x[2]]
+    ctx.ob('TABLE', 'distance:inverse-trig-clamped', not badd, (badd[0][1].where() if badd else vb.where()),
+           ('the distance routine applies no inverse trigonometric function to an unclamped value (%d acos/asin site(s))' % len(dsites)) if not badd else
+           ('%s is applied to an unclamped computed value in %s: for coincident points the argument can exceed 1 by rounding, the distance becomes NaN and '
+            'every `distance < minimum` test is false — two nodes 0 km apart pass the 50 km rule' % (badd[0][1].short(), badd[0][0].id.rsplit('::', 1)[-1])), entry=vb.id)
     # the two counting loops count every selected node, and Ok(()) is returned only after every check loop ran to exhaustion
     ents = vb.calls(r'HashMap::<.*>::entry$')
     for i, c in enumerate(ents):
